@@ -353,6 +353,21 @@ class Interp:
 
     def apply_lambda(self, fterm, args, st):
         """-> list[(value, state)] of applying a lambda term to positional arguments, or None when it is not a known lambda."""
+        if is_t(fterm) and fterm[1] == 'name' and len(fterm) >= 3 and self.fi_stack and len(self.fi_stack) < 10:
+            # a repo function passed by name (reduce(_step, seq, init), map(f, xs)): applied like a call of that name
+            nm = fterm[2]
+            nm = nm[1] if isinstance(nm, tuple) and len(nm) == 2 and nm[0] in ('c', 'raw') else nm
+            if isinstance(nm, str):
+                try:
+                    r_ = self.repo.resolve_name(self.fi_stack[-1].module, nm.split('.')[-1]) if '.' not in nm else None
+                except Exception:
+                    r_ = None
+                f_ = r_ if r_ is not None and hasattr(r_, 'params') else None
+                if f_ is None:
+                    f_ = self.fi_stack[-1].module.funcs.get(nm)
+                if f_ is not None and not f_.yields() and len(f_.real_params) >= len(args) and not f_.is_method:
+                    return [(v, s2) for kind, v, s2 in self.call_function(f_, list(args), {}, st) if kind == 'ok']
+            return None
         if not (is_t(fterm) and fterm[1] == 'lambda' and len(fterm) >= 3 and fterm[2] in getattr(self, '_lambdas', {})):
             return None
         node, cenv = self._lambdas[fterm[2]]
